@@ -24,10 +24,13 @@ def place(shape, sym, bt, sp, det=None):
 
 import math
 def run_case(c):
-    axis, shape, nst = c["axis"], list(c["shape"]), c["steps"]
-    sym = [0, 0, 0]; sym[axis] = -1
+    shape, nst = list(c["shape"]), c["steps"]
+    axes = list(c.get("axes") or [c["axis"]])      # electric symmetry planes (config.symmetry = -1) on these axes
+    sym = [0, 0, 0]
+    for a in axes:
+        sym[a] = -1
     bt = c["bt"]
-    n = shape[axis] // 2
+    ns = {a: shape[a] // 2 for a in axes}
     det = c.get("det")
     ocr, ar, _, cfgr, _ = place(shape, sym, bt, 1e-7, det)
     ocf, af, _, cfgf, _ = place(shape, (0, 0, 0), bt, 1e-7, det)
@@ -36,11 +39,15 @@ def run_case(c):
     E = jnp.asarray(rng.integers(-8, 9, size=rs) / 4.0); H = jnp.asarray(rng.integers(-8, 9, size=rs) / 4.0)
     for b in ocr.boundary_objects:
         E = b.apply_post_E_update(E); H = b.apply_post_H_update(H)
-    idx = [axis] + [slice(None)] * 3; idx[axis + 1] = 0
-    H = H.at[tuple(idx)].set(0)      # normal H vanishes on the electric plane row
-    tsh = [3] + list(rs[1:]); tsh[axis + 1] = 1
+    tsh = [3] + list(rs[1:])
+    for a in axes:
+        idx = [a] + [slice(None)] * 3; idx[a + 1] = 0
+        H = H.at[tuple(idx)].set(0)      # normal H vanishes on the electric plane row
+        tsh[a + 1] = 1                   # material constant along the mirrored axes (trivially mirror symmetric)
     inv_eps = np.broadcast_to(1.0 / (2.0 ** rng.integers(0, 3, size=tsh)), (3,) + tuple(rs[1:])).copy()
-    inv_eps_full = np.concatenate([inv_eps, inv_eps], axis=axis + 1)
+    inv_eps_full = inv_eps
+    for a in axes:
+        inv_eps_full = np.concatenate([inv_eps_full, inv_eps_full], axis=a + 1)
     ar = ar.aset("fields->E", E).aset("fields->H", H).aset("inv_permittivities", jnp.asarray(inv_eps))
     Ef = unfold_fields(E, tuple(sym), "E"); Hf = unfold_fields(H, tuple(sym), "H")
     for b in ocf.boundary_objects:
@@ -57,23 +64,31 @@ def run_case(c):
         worst = 0.0
         for nm in ("E", "H"):
             u = np.asarray(unfold_fields(getattr(sr[1].fields, nm), tuple(sym), nm)); f = np.asarray(getattr(sf[1].fields, nm))
-            sl = [slice(None)] * 4; sl[axis + 1] = slice(t + 3, 2 * n - t - 3)
-            if sl[axis + 1].start < sl[axis + 1].stop:
+            sl = [slice(None)] * 4
+            for a in axes:
+                sl[a + 1] = slice(t + 3, 2 * ns[a] - t - 3)
+            if all(sl[a + 1].start < sl[a + 1].stop for a in axes):
                 worst = max(worst, float(np.abs(u[tuple(sl)] - f[tuple(sl)]).max()))
         errs.append(worst)
-    out = {"reduced": red, "full": full, "cone_err": errs, "n": n, "scale": float(max(np.abs(np.asarray(sf[1].fields.E)).max(), 1e-300)),
-           "walls": [[int(b.axis), b.direction, type(b).__name__, bool(getattr(b, "_is_symmetry_wall", False))] for b in ocr.boundary_objects]}
+    out = {"reduced": red, "full": full, "cone_err": errs, "n": [ns[a] for a in axes], "scale": float(max(np.abs(np.asarray(sf[1].fields.E)).max(), 1e-300)),
+           "walls": [[int(b.axis), b.direction, type(b).__name__, bool(getattr(b, "_is_symmetry_wall", False)),
+                      [list(map(int, sl_)) for sl_ in b.grid_slice_tuple]] for b in ocr.boundary_objects],
+           "reduced_shape": [int(v) for v in rs[1:]]}
     if det:
         ur = unfold_detector_states(sr[1], ocr, cfgr)
         dr = np.asarray(ur.detector_states["det"]["fields"]); df = np.asarray(sf[1].detector_states["det"]["fields"])
         out["det_shapes"] = [list(dr.shape), list(df.shape)]
         derr = []
         if dr.shape == df.shape:
-            lo = det[axis][0]
             for t in range(nst):
-                a0, a1 = max(t + 4 - lo, 0), min(2 * n - t - 4 - lo, dr.shape[axis + 2])
-                sl = [t, slice(None), slice(None), slice(None), slice(None)]; sl[axis + 2] = slice(a0, a1)
-                derr.append(float(np.abs(dr[tuple(sl)] - df[tuple(sl)]).max()) if a0 < a1 else 0.0)
+                sl = [t, slice(None), slice(None), slice(None), slice(None)]
+                ok = True
+                for a in axes:
+                    lo = det[a][0]
+                    a0, a1 = max(t + 4 - lo, 0), min(2 * ns[a] - t - 4 - lo, dr.shape[a + 2])
+                    sl[a + 2] = slice(a0, a1)
+                    ok = ok and a0 < a1
+                derr.append(float(np.abs(dr[tuple(sl)] - df[tuple(sl)]).max()) if ok else 0.0)
         out["det_err"] = derr
         out["det_scale"] = float(max(np.abs(df).max(), 1e-300))
     return out
